@@ -178,14 +178,23 @@ impl Reject {
         if self.status.starts_with('P') || (self.agg && self.reason == "dropUninit") {
             return "aggregate-literal-diverging-field".into();
         }
-        if self.def_block.contains("while-condition") {
-            return "while-cond-temporaries".into();
+        if self.arg && self.reason == "return-leak" {
+            // an argument temporary still owned at a `return` that a later argument executes
+            return "diverging-later-call-argument".into();
         }
         if self.def_block.contains("guard_") {
-            return "match-guard-temporaries".into();
+            if self.var.starts_with('$') {
+                // temporaries of a guard expression live in the frame enclosing the match
+                return "match-guard-temporaries".into();
+            }
+            if self.reason == "return-leak" && self.block.contains("guard_") {
+                // a `return` inside a guard: the arm's bindings were already popped
+                return "match-guard-return-leaks-bindings".into();
+            }
+            return format!("match-binding:{}", self.reason);
         }
-        if self.arg && self.reason == "return-leak" {
-            return "diverging-later-call-argument".into();
+        if self.def_block.contains("while-condition") {
+            return "while-cond-temporaries".into();
         }
         format!("other:{}:{}", strip(&self.def_block), self.reason)
     }
@@ -365,6 +374,8 @@ fn table() -> Vec<(&'static str, Ret, String)> {
         ("clean-and-or", Ret::U32, f("u32", "if (id(mk(n)) == 1 && id(mk(m)) == 2) || same(t, mk(1000)) { 1 } else { 2 }")),
         ("clean-question", Ret::OptTk, f("Tk?", "let q = maybe(c, n)?; Some(q)")),
         ("clean-assign", Ret::Tk, f("Tk", "let x = mk(1); x = mk(2); let r = R { a: x, b: s, k: n }; r.a = t; r.b = \"z\"; r.a")),
+        ("clean-match-guard-fails", Ret::U32, f("u32", "match opt(t, c) { Some(y) if id(y) == n => 1, Some(y) if id(y) == m => 2, Some(y) => id(y), None => 3 }")),
+        ("clean-assign-loop", Ret::Str, f("String", "let x = s; let i = 0; while i < n { x = x + \"a\"; i = i + 1; } x")),
         ("clean-match", Ret::Str, f("String", "match opt(t, c) { Some(y) => name(y), None => s }")),
         ("clean-fstring", Ret::Str, f("String", "f\"a{n}b{s}c{name(t)}\"")),
         ("witness-call-arg", Ret::U32, f("u32", "let b = same(mk(1), if c { return 3 } else { mk(2) }); 3")),
@@ -523,6 +534,11 @@ fn run_corpus(rep: &mut Report, repo: &str) {
 }
 
 fn on_crash(rep: &mut Report, kind: &str, seed: u64, depth: u32, index: u64, ended: &rotov_harness::worker::Ended) {
+    if matches!(ended, rotov_harness::worker::Ended::Timeout) {
+        // generated scripts may legitimately not terminate (pushing to the list being iterated)
+        rep.hist("compile", "timeout-skipped");
+        return;
+    }
     let (src, ret) = match kind {
         "gen" => {
             let (s, r, _) = gen_case(seed, index, depth);
@@ -534,7 +550,20 @@ fn on_crash(rep: &mut Report, kind: &str, seed: u64, depth: u32, index: u64, end
     let (key, why) = match Driver::spawn().ok().map(|mut d| check_script(&mut d, &src)) {
         Some(Ok(c)) => match c.rejects.first() {
             Some(r) => (r.class(), format!("checker: {} at {} on {} [{}]", r.reason, r.block, r.var, r.status)),
-            None => ("crash".to_string(), "checker accepted the script".to_string()),
+            None => {
+                // Heap corruption surfaces late: the blamed script may be innocent. Run it alone.
+                if kind == "gen" {
+                    let (sd, dp, ix) = (seed.to_string(), depth.to_string(), index.to_string());
+                    let (alone, _) = rotov_harness::worker::run_worker_keep_stdout(
+                        &["gen", &sd, &dp, &ix, "1"], std::time::Duration::from_secs(60));
+                    if matches!(alone, rotov_harness::worker::Ended::Exit(0, _)) {
+                        rep.notes.push(format!(
+                            "worker died at gen:{seed}:{index}:{depth} but the script runs cleanly alone: memory was corrupted by an earlier case of the batch (reported separately if measured)"));
+                        return;
+                    }
+                }
+                ("crash".to_string(), "checker accepted the script".to_string())
+            }
         },
         _ => ("crash".to_string(), "script could not be dumped".to_string()),
     };
@@ -563,7 +592,7 @@ fn main() {
             let thorough = args.get(3).map(|s| s == "thorough").unwrap_or(false);
             let repo = args.get(4).cloned().or_else(|| std::env::var("ROTO_REPO").ok()).unwrap_or_else(|| "/repo".into());
             let mut rep = Report::default();
-            let timeout = std::time::Duration::from_secs(120);
+            let timeout = std::time::Duration::from_secs(30);
             // 1. the table (witnesses first)
             let nt = table().len() as u64;
             rotov_harness::worker::run_batches(&["table", "0", "0"], nt, 4, timeout, &mut rep,
@@ -578,6 +607,17 @@ fn main() {
                 rotov_harness::worker::run_batches(&["gen", &s, &d], *total, 40, timeout, &mut rep,
                     |rep, idx, ended| on_crash(rep, "gen", sd, dp, idx, ended));
             }
+            // replays: measured (script + inputs) before predicted-only
+            rep.impl_violations.sort_by_key(|v| v["input"]["confirmed"] == json!(false) || v["input"]["crash"] == json!(true));
+            rep.emit();
+        }
+        Some("worker") if args.get(2).map(|s| s.as_str()) == Some("replay-one") => {
+            let v: Value = serde_json::from_str(&args[3]).expect("json");
+            let src = v["script"].as_str().expect("script");
+            let ret = Ret::parse(v["ret"].as_str().unwrap_or("u32")).expect("ret");
+            let mut rep = Report::default();
+            let mut drv = Driver::spawn().expect("lean driver");
+            one_case(&mut rep, &mut drv, src, ret, "replay");
             rep.emit();
         }
         Some("worker") => {
@@ -600,15 +640,6 @@ fn main() {
                         v["key"].as_str().unwrap_or("crash"), v.clone());
                 }
             }
-            rep.emit();
-        }
-        Some("worker") if args.get(2).map(|s| s.as_str()) == Some("replay-one") => {
-            let v: Value = serde_json::from_str(&args[3]).expect("json");
-            let src = v["script"].as_str().expect("script");
-            let ret = Ret::parse(v["ret"].as_str().unwrap_or("u32")).expect("ret");
-            let mut rep = Report::default();
-            let mut drv = Driver::spawn().expect("lean driver");
-            one_case(&mut rep, &mut drv, src, ret, "replay");
             rep.emit();
         }
         Some("dump") => match dump(&args[2]) {
